@@ -109,6 +109,66 @@ func ruleTB9a(pkg, fn string, floor int) Rule {
 				}
 				path, multi := matchedPath(c.P, info, as)
 				rhs := ast.Unparen(as.Rhs[0])
+				// op = l.either(T0, T1): a helper of the scanner that reads on and returns one
+				// of the tokens it is handed; each returned parameter is produced for the
+				// caller's path plus the runes the helper matched before that return
+				if call, ok := rhs.(*ast.CallExpr); ok {
+					if fo := core.StaticCallee(info, call); fo != nil {
+						if h := c.P.FuncOf(fo); h != nil && h != f && h.Pkg == f.Pkg && h.Body != nil && h.Decl != nil && h.Type.Params != nil {
+							hi := h.Info()
+							idx := map[types.Object]int{}
+							k := 0
+							for _, fld := range h.Type.Params.List {
+								for _, nm := range fld.Names {
+									idx[hi.Defs[nm]] = k
+									k++
+								}
+							}
+							handled := false
+							h.OwnNodes(func(y ast.Node) bool {
+								ret, ok := y.(*ast.ReturnStmt)
+								if !ok || len(ret.Results) != 1 {
+									return true
+								}
+								id, ok := ast.Unparen(ret.Results[0]).(*ast.Ident)
+								if !ok {
+									return true
+								}
+								pi, isParam := idx[hi.Uses[id]]
+								if !isParam || pi >= len(call.Args) {
+									return true
+								}
+								arg := ast.Unparen(call.Args[pi])
+								tv, ok := info.Types[arg]
+								if !ok || tv.Value == nil {
+									return true
+								}
+								hpath, hmulti := matchedPath(c.P, hi, ret)
+								if len(hmulti) > 0 {
+									return true
+								}
+								handled = true
+								tk := exprStr(arg)
+								key := fmt.Sprintf("%s|op=%s", f.Name, tk)
+								produced[tk] = true
+								got := path + hpath
+								want, known := ops[tk]
+								switch {
+								case !known:
+									rr.Bad(f, key, as.Pos(), "token "+tk+" has no spelling in the ops table")
+								case want == got:
+									rr.OK(f, key, as.Pos(), "equal", fmt.Sprintf("%q (through %s)", want, h.Short))
+								default:
+									rr.Bad(f, key, as.Pos(), fmt.Sprintf("token %s is produced after matching %q (through %s) but ops spells it %q: the operator is tokenised as a different one", tk, got, h.Short, want))
+								}
+								return true
+							})
+							if handled {
+								return true
+							}
+						}
+					}
+				}
 				// op = int(r) under a multi-rune case
 				if call, ok := rhs.(*ast.CallExpr); ok && len(multi) > 0 {
 					if tv, ok := info.Types[call.Fun]; ok && tv.IsType() {
